@@ -29,10 +29,23 @@ mod storage;
 mod table;
 #[cfg(test)]
 mod test;
+#[cfg(not(kani))]
 mod time;
+// Virtual clock used only under `cargo kani` (same API as `time::Instant`).
+#[cfg(kani)]
+mod time {
+    include!(concat!(env!("BTDHT_VERIF"), "/harness/vtime.rs"));
+}
 mod timer;
 mod token;
 mod transaction;
+
+// Shared runtime of the verification harnesses (compiled only by `cargo kani`).
+#[cfg(kani)]
+#[allow(dead_code, unused_imports)]
+mod verif {
+    include!(concat!(env!("BTDHT_VERIF"), "/harness/rt.rs"));
+}
 
 pub use crate::action::State;
 pub use crate::info_hash::{INFO_HASH_LEN, InfoHash, LengthError, NodeId};
